@@ -80,6 +80,13 @@ CHECKS = {
                      "intersection is empty), both ends stable, answer mirrors the offer (sections, mids, BUNDLE; codecs/payload types, RTX "
                      "with its base, rtcp-fb, extmap ids all within the offer; definite DTLS role), current directions complementary, both "
                      "sides connect and every negotiated data channel carries a message each way."),
+    "C14": dict(engine="pc_sim", design="10/C14", technique="deterministic simulation: generated call programs on a real pair of peer connections (background connect tasks interleaving under the seeded scheduler) judged call by call against a JSEP reference table with pre/post snapshots",
+                text="Seeded exploration of programs (<=18 calls) over createOffer / createAnswer / setLocalDescription (offer, stale offer, "
+                     "answer, stale answer, mismatched answer, implicit) / setRemoteDescription (offer, answer, mismatched answer, defective "
+                     "descriptions lacking ufrag, pwd, rtcp-mux or a definite role) / close on either peer: legal calls succeed and move "
+                     "signalingState as the table says; calls illegal in the state raise InvalidStateError, mismatched or defective "
+                     "descriptions ValueError; after either, signalingState and both descriptions equal their pre-call snapshot; closed is "
+                     "absorbing. Configurations are kept to ones C03 shows negotiable so that a C03 defect is not re-reported here."),
 }
 
 NOT_APPLICABLE = [
